@@ -327,6 +327,64 @@ def k_rules(F, ctx):
                     r.fail(inst, f"slot written by accept_route_state is not refreshed by accept_insertion ({why}): stale after each single insertion",
                            F.loc(meths["ins"]) if meths["ins"] else None)
 
+    def k5b(F_, r):
+        """the per-insertion refresh runs on every path, or is guarded only by a job-dimension test the refresh code also reads / by the route's existence"""
+        for label, meths, flt in feats:
+            m = meths["ins"]
+            if not m:
+                continue
+            fn = F.fns[m]
+            w = W[label]
+            for slot in sorted(slots(w["route"][0])):
+                setters = {o.fid for o in w["ins"][0] if o.key == slot and o.op == "set"}
+                if not setters:
+                    continue
+                blocks = []
+                for bi, t in mir.calls(fn):
+                    for g in cg.call_targets(F, t):
+                        if setters & set(cg.reach(F, [g], edge_filter=flt)):
+                            blocks.append(bi)
+                for bi, si, st in mir.stmts(fn):
+                    if st["r"]["k"] == "agg" and st["r"].get("ak") == "closure" and setters & set(cg.reach(F, [st["r"]["n"]], edge_filter=flt)):
+                        blocks.append(bi)
+                inst = f"{label}:{kv.short(slot)}"
+                if not (set(mir.ret_blocks(fn)) & mir.reach(fn, [0], blocked=blocks)):
+                    r.ok(inst, "refreshed on every path of accept_insertion")
+                    continue
+                # dimension keys read by the refresh code
+                refresh_dims = set()
+                for b in blocks:
+                    t = fn["bbs"][b]["t"]
+                    if t["k"] == "call":
+                        for g in cg.call_targets(F, t):
+                            ops_, _ = kv.reach_ops(F, g, edge_filter=flt)
+                            refresh_dims |= {o.key for o in ops_ if o.store == "dimens" and o.op == "get"}
+                bad = None
+                for sb, bb in enumerate(fn["bbs"]):
+                    tt = bb["t"]
+                    if tt["k"] != "switch" or not mir.is_place(tt["o"]):
+                        continue
+                    rs = [bool(set(blocks) & mir.reach(fn, [x])) for x in mir.succs(fn)[sb]]
+                    if not (any(rs) and not all(rs)):
+                        continue
+                    leaves, crossed = mir.deep_leaves(fn, tt["o"])
+                    guard_dims = set()
+                    for c in crossed:
+                        for c2 in [c] + list(F.cha.get(c, [])):
+                            if c2 in F.fns:
+                                guard_dims |= {o.key for o in kv.ops_in(F, [c2]) if o.store == "dimens" and o.op == "get"}
+                    route_exists = any(c.split("::")[-1] in ("get_mut", "get") and ("Vec" in c or "slice" in c) for c in crossed)
+                    if guard_dims and guard_dims <= refresh_dims:
+                        continue
+                    if route_exists and not guard_dims:
+                        continue
+                    bad = (bb["t"].get("ln"), sorted(c.split("::")[-1] for c in crossed)[:4])
+                if bad:
+                    r.fail(inst, f"accept_insertion refreshes the slot only under a condition ({bad[1]}) that is not a test of a job dimension the refresh itself depends on: "
+                                 "an insertion that does not satisfy it still shifts activity indices / changes the tour, leaving the cached value stale until the next solution-level accept", F.loc(m, bad[0]))
+                else:
+                    r.ok(inst, "conditional refresh guarded by a job-dimension test the refresh depends on (or by the route's existence)")
+
     def k6(F_, r):
         for label, meths, flt in feats:
             w = W[label]
@@ -376,6 +434,7 @@ def k_rules(F, ctx):
 
     ctx.run("C05-K4", "every RouteState slot a FeatureState writes per route/insertion is also refreshed by its accept_solution_state (actor-only slots exempt)", k4, floor=12)
     ctx.run("C05-K5", "every RouteState slot written by accept_route_state is refreshed by accept_insertion (actor-only exempt)", k5, floor=12)
+    ctx.run("C05-K5b", "per-insertion refresh is unconditional or guarded only by a dimension test it depends on", k5b, floor=12)
     ctx.run("C05-K6", "every SolutionState slot written by a FeatureState is written from accept_solution_state", k6, floor=4)
     ctx.run("C05-K7", "slots not rebuilt by accept_route_state but read by a constraint are rebuilt for all routes at solution accept", k7, floor=1)
     ctx.run("C05-K8", "every RouteContext::new/new_with_state site passes goal.accept_route_state (side condition of the actor-only exemption)", k8, floor=3)
